@@ -154,7 +154,7 @@ def run_property(pid, rules_fn, level, explanation, assumptions, trusted_base, t
         for k, v in renamed.items():
             print("  note: function `%s` fills the role of `%s` and is reported under that name" % (k, v.split("::")[-1]))
         for k, v in inlined.items():
-            print("  note: helper `%s` (not in the reviewed tree) is analysed inlined into %s" % (k, ", ".join(v)))
+            print("  note: normalised before the rules ran: `%s` (not in the reviewed tree) folded into %s" % (k, ", ".join(v)))
         for k, v in renamed_locals.items():
             print("  note: in %s the locals %s are reported under their reference names" % (k, ", ".join("`%s` as `%s`" % kv for kv in v.items())))
         print("VIOLATION property=%s replay=%s" % (pid, replay_path))
